@@ -1237,7 +1237,11 @@ class TakeAdaptor(IterVal):
         self.n = n
 
     def nxt(self, I):
-        if self.n <= 0:
+        if is_sym(self.n):
+            # symbolic bound: one fork per element asked for (n > 0 ?), never an enumeration of n
+            if not I.branch(self.n > 0):
+                return None, self
+        elif self.n <= 0:
             return None, self
         x, ni = self.inner.nxt(I)
         return x, TakeAdaptor(ni, self.n - 1)
@@ -1492,7 +1496,7 @@ def _iter_zip(I, a, ci, dt):
 
 @reg('Iterator::take')
 def _iter_take(I, a, ci, dt):
-    return TakeAdaptor(to_iter(I, a[0]), I.concretize(a[1]))
+    return TakeAdaptor(to_iter(I, a[0]), a[1])
 
 
 @reg('Iterator::skip')
